@@ -158,6 +158,49 @@ def corner_shard(spec, idx, nshards, seed, per_row, cfgname=None):
 PATH_MEMBERS = 3
 
 
+def undef_shard(spec, cfgname, seed, per_row):
+    """words of the UNDEFINED rows of the reference table under a configuration that switches an extension on (Multiprocessing, Virtualization, ThumbEE,
+    VFP/SIMD, the R profile): what an extension adds lives in its own rows - a word of an UNDEFINED row stays UNDEFINED whatever is configured"""
+    from vf import gen
+    spec = get_spec(spec)
+    acc = Acc()
+    rng = random.Random(seed)
+    cfgov = gen.CONFIGS[cfgname]
+    target.load_config(cfgov)
+    try:
+        cpu = spec.cpu(cfgov)
+        for row in spec.table:
+            if row.cls != UNDEF:
+                continue
+            letters = sorted(row.fields)
+            for _ in range(per_row):
+                w = row.build(**{l: rng.getrandbits(len(row.fields[l])) for l in letters})
+                if spec.skip and spec.skip(w):
+                    continue
+                row2, _ = table_decode(spec.table, w)
+                if row2 is row:
+                    check_word(acc, spec, cpu, w, dc.outcome_of(spec.decoder, w), row, 'undefined-row-member:' + cfgname, rng, cfgov, strict=cfgname)
+        # the UNDEFINED words next to real encodings: members of every other row with ONE fixed bit flipped that land in an UNDEFINED row (the catch-all
+        # rows are wide; the words a decoder change is likely to touch are the neighbours of the encodings it handles)
+        for row in spec.table:
+            if row.cls == UNDEF:
+                continue
+            letters = sorted(row.fields)
+            fixed_bits = [b for b in range(row.n) if (row.mask >> b) & 1]
+            for _ in range(max(2, per_row // 10)):
+                w0 = row.build(**{l: rng.getrandbits(len(row.fields[l])) for l in letters})
+                for b in fixed_bits:
+                    w = w0 ^ (1 << b)
+                    if spec.skip and spec.skip(w):
+                        continue
+                    row2, _ = table_decode(spec.table, w)
+                    if row2 is not None and row2.cls == UNDEF:
+                        check_word(acc, spec, cpu, w, dc.outcome_of(spec.decoder, w), row2, 'undefined-neighbour:' + cfgname, rng, cfgov, strict=cfgname)
+    finally:
+        target.load_config(None)
+    return acc
+
+
 def operand_path_shard(spec, idx, nshards, seed, limit):
     """paths THROUGH from_bitarray: for every path of the class-selection decoder, the provenance-tracking word is pushed on through the selected
     class's from_bitarray (operand extraction, its special cases - imm5 == 0, Rd == SP with LSL #0..3, register-list counts - and its UNPREDICTABLE
@@ -231,7 +274,7 @@ def replay_word(spec, w, cfgov=None):
         cpu = spec.cpu(cfgov)
         a = dc.outcome_of(spec.decoder, w)
         row, _ = table_decode(spec.table, w)
-        strict = 'v7-vfp' if (cfgov or {}).get('have_adv_simd_or_vfp') else False
+        strict = 'v7-vfp' if (cfgov or {}).get('have_adv_simd_or_vfp') else ('extension' if cfgov else False)
         for sd in range(4):          # the operand comparison draws flags / IT position: a few draws
             check_word(acc, spec, cpu, w, a, row, 'replay', random.Random(sd), cfgov, strict=strict)
     finally:
